@@ -568,8 +568,14 @@ def attach(run0, replay0, cases0, report):
 
 
 def run(run, tier):
-    """stand-alone: ./check C07X"""
+    """stand-alone: ./check C07X (regenerates Gen/Rhs.v and Gen/Rhs2.v from the source first, as harness/c07.py does)"""
     from .c08 import report
+    from . import rhs_lib as L, rhs2_spec as S2
+    try:
+        L.regen_rhs('all')
+    except L.RhsRefused as e:
+        run.violation('C07/translator', 'translate/rhs2v.py refuses the current EoN/analytic.py: %s' % e, {'broken': 'translator'}, no_input=True)
+    S2.regen_phase()
     r = part(run, tier, report)
     C.proof_coverage(run, r['props'], r['n_eval'], r['n_distinct'], r['rule'], [], {'distribution': r['stats']})
 
